@@ -10,8 +10,8 @@ import (
 	"github.com/ozontech/file.d/zzverif/vsched"
 )
 
-func ev(json string) Ev               { return Ev{JSON: json} }
-func evs(stream, json string) Ev      { return Ev{JSON: json, Stream: stream} }
+func ev(json string) Ev          { return Ev{JSON: json} }
+func evs(stream, json string) Ev { return Ev{JSON: json, Stream: stream} }
 func plain(n int, stream string) []Ev {
 	var out []Ev
 	for i := 0; i < n; i++ {
@@ -50,6 +50,12 @@ func Scenarios() []*Scn {
 		{Name: "S13-giveup-nodq", Pool: std, Capacity: 4, Sources: [][]Ev{plain(2, "")}, Sends: "ff", Retry: 0, Props: "C01 C02 C09"},
 		{Name: "S14-dq-batch2", Pool: std, Capacity: 4, Sources: [][]Ev{plain(2, "")}, Sends: "ff", Retry: 0, DeadQueue: "batch2", Props: "C01 C02 C09"},
 		{Name: "S15-dq-sync", Pool: std, Capacity: 4, Sources: [][]Ev{plain(2, "")}, Sends: "ff", Retry: 0, DeadQueue: "sync", Props: "C01 C02 C09"},
+		{Name: "S16-split-giveup-dq", Pool: std, Capacity: 4, Sources: [][]Ev{{ev(`{"arr":[{"m":"c1"},{"m":"c2"}]}`), ev(`{"m":"x3"}`)}}, Actions: []string{"split"}, BatchCount: 3, Sends: "ff", Retry: 0, DeadQueue: "sync", Props: "C01 C02 C05"},
+		{Name: "S17-split-giveup-nodq", Pool: low, Capacity: 4, Sources: [][]Ev{{ev(`{"arr":[{"m":"c1"},{"m":"c2"}]}`), ev(`{"m":"x3"}`)}}, Actions: []string{"split"}, BatchCount: 3, Sends: "ff", Retry: 0, Props: "C01 C02 C05"},
+		// late arrivals: an event put on a stream whose processor has been parked in blockGet for a while (heartbeat ticks at 200ms multiples)
+		{Name: "S23-join-hold-late-put", Pool: std, Capacity: 4, Sources: [][]Ev{{S, Ev{JSON: `{"m":"x2"}`, Delay: 400 * time.Millisecond}}}, Actions: []string{"join"}, Props: "C04 C02 C01"},
+		{Name: "S24-discard-then-join-late", Pool: std, Capacity: 4, Sources: [][]Ev{{S, ev(`{"d":"1"}`), Ev{JSON: `{"m":"x3"}`, Delay: 100 * time.Millisecond}}}, Actions: []string{"discard", "join"}, Props: "C01 C02 C04"},
+		{Name: "S25-collapse-late-put", Pool: low, Capacity: 4, Sources: [][]Ev{{ev(`{"c":1}`), Ev{JSON: `{"p":2}`, Delay: 600 * time.Millisecond}}}, Actions: []string{"collapse"}, Props: "C04 C02"},
 		{Name: "S18-cap1-join-hold", Pool: low, Capacity: 1, Sources: [][]Ev{{S, Oth}}, Actions: []string{"join"}, Props: "C04 C05"},
 		{Name: "S19-1proc-2streams", Pool: std, Capacity: 2, SingleProc: true, Sources: [][]Ev{{x, y, x2}}, Props: "C02 C04"},
 		{Name: "S20-exits-of-In", Pool: std, Capacity: 2, MaxEventSize: 40, Sources: [][]Ev{{
